@@ -1339,6 +1339,7 @@ const SEEDS: &[&str] = &[
     ".a { w: min(100% - 20rpx, 50px); h: calc((1px + 2px) * 3) }",
     ".a { w: calc(1px + var(--x, 2px + 1rpx)); h: min(env(a, 1px - 2px), translate(3px + var(--y, 1px + 1px))) }",
     ".a{w:round(up, 1px + 2px, 3px);h:hypot(1px + 1rpx);x:-webkit-calc(1px + 2px);y:abs(1px - 2px);z:mod(5px + 1px, 2px);v:CALC-SIZE(auto, size + 2px)}",
+    "@supports (content: \"{\") { :host { color: pink } .k{} } @supports selector(a[b=\"{{\"]) { @media x { :host{a:b} .c{} } }",
     "@import \"./x\" supports(selector(.a *));\n@import url(y) supports(selector(a :has(.b #c [d] :e))) screen;\n@import 'z' layer(l.m) supports(selector(.p > .q ~ * .r));\n.k{}",
     "/*x*/ .a /*y*/ .b{color:red}\n@media (min-width: 2rpx) { .c/*k*/.d { x: 1rpx } }",
     ".\u{1f600}a \u{540d}.b{ --\u{e9}: '\u{1f600}' 1rpx }\n.c{}",
